@@ -122,6 +122,19 @@ impl Reduce {
     ///     - Add noise on the aggregations
     pub fn differentially_private(self, parameters: &DpParameters) -> Result<DpRelation> {
         let mut dp_event = DpEvent::no_op();
+        #[cfg(feature = "verif-hooks")]
+        crate::verif_hooks::emit(
+            "dp_reduce",
+            vec![
+                ("relation", self.name().into()),
+                ("epsilon", parameters.epsilon.into()),
+                ("delta", parameters.delta.into()),
+                ("tau_thresholding_share", parameters.tau_thresholding_share.into()),
+                ("max_privacy_unit_groups", parameters.max_privacy_unit_groups.into()),
+                ("group_by", self.group_by().len().into()),
+                ("aggregates", self.aggregate().len().into()),
+            ],
+        );
         let max_size = self.size().max().unwrap().clone();
         let pup_input = PupRelation::try_from(self.input().clone())?;
         let privacy_unit_unique =
@@ -162,6 +175,20 @@ impl Reduce {
                 .with_size(usize::try_from(max_size).unwrap())
                 .with_privacy_unit_unique(privacy_unit_unique);
 
+        #[cfg(feature = "verif-hooks")]
+        crate::verif_hooks::emit(
+            "dp_reduce_aggregates",
+            vec![
+                ("relation", reduce_with_dp_group_by.name().into()),
+                ("aggregation_share", aggregation_share.into()),
+                ("epsilon", aggregation_parameters.epsilon.into()),
+                ("delta", aggregation_parameters.delta.into()),
+                ("size", aggregation_parameters.size.into()),
+                ("privacy_unit_unique", aggregation_parameters.privacy_unit_unique.into()),
+                ("multiplicity", aggregation_parameters.privacy_unit_multiplicity().into()),
+                ("thresholding_spent", (!dp_event.is_no_op()).into()),
+            ],
+        );
         // DP rewrite aggregates
         let (dp_relation, dp_event_agg) = reduce_with_dp_group_by
             .differentially_private_aggregates(aggregation_parameters)?
